@@ -486,7 +486,7 @@ func (l *IPFSLog) Iterator(options *IteratorOptions, output chan<- iface.IPFSLog
 	}
 
 	// Deal with the amount argument working backwards from gt/gte
-	if (options.GT.Defined() || options.GTE.Defined()) && amount > -1 {
+	if (options.GT.Defined() || options.GTE.Defined()) && amount > -1 && amount < len(entries) {
 		entries = entries[len(entries)-amount:]
 	}
 
